@@ -28,6 +28,8 @@ CONSTANTS T,            \* length of the base input series
           CutPoints,    \* subset of 1..T-1 used for "sfx"/"cut" input variants
           MaxOps,       \* bound on the number of actions in a history
           Splits,       \* BOOLEAN: Run may cover a proper segment [a,b) and resume (C06)
+          S0Kinds,      \* where a whole run takes its initial states from: "given" (a caller array with fixed
+                        \* content) and/or "init" (obj.InitialiseStates(1) of the object being run)
           HandOvers,    \* hand-over modes at a resume: subset of {"inplace", "copygo", "copyc"}
           Emit
 
@@ -41,8 +43,8 @@ LenOf(iv) == IF iv[1] = "cut" THEN iv[2] ELSE T
 \* canonical name of the first n timesteps of variant iv
 Prefix(iv, n) == IF iv[1] = "base" \/ n <= iv[2] THEN <<"base", n>> ELSE <<iv[1], iv[2], n>>
 
-OutLabel(p, iv, t) == <<"out", p, Prefix(iv, t + 1)>>
-StLabel(p, iv, b) == <<"st", p, Prefix(iv, b)>>
+OutLabel(p, s0, iv, t) == <<"out", p, s0, Prefix(iv, t + 1)>>
+StLabel(p, s0, iv, b) == <<"st", p, s0, Prefix(iv, b)>>
 
 Init == /\ obj = <<>> /\ chain = <<>> /\ hist = <<>> /\ nops = 0 /\ done = FALSE
 
@@ -71,11 +73,11 @@ Apply == /\ ~done /\ nops < MaxOps /\ chain = <<>> /\ ~ChainJustCompleted
 \* a whole run [0, len) from the initial states: every output and the final state are observed
 RunWhole ==
     /\ ~done /\ nops < MaxOps /\ chain = <<>> /\ ~Splits
-    /\ \E o \in DOMAIN obj, iv \in IVars :
+    /\ \E o \in DOMAIN obj, iv \in IVars, s0 \in S0Kinds :
          /\ obj[o].params # 0
-         /\ Log([op |-> "run", o |-> o, iv |-> iv, a |-> 0, b |-> LenOf(iv), handover |-> "none",
-                 outs |-> [t \in 1..LenOf(iv) |-> OutLabel(obj[o].params, iv, t - 1)],
-                 st |-> StLabel(obj[o].params, iv, LenOf(iv))])
+         /\ Log([op |-> "run", o |-> o, iv |-> iv, a |-> 0, b |-> LenOf(iv), handover |-> "none", s0 |-> s0,
+                 outs |-> [t \in 1..LenOf(iv) |-> OutLabel(obj[o].params, s0, iv, t - 1)],
+                 st |-> StLabel(obj[o].params, s0, iv, LenOf(iv))])
     /\ UNCHANGED <<obj, chain, done>>
 
 \* a split run (C06): segment [a, b) resumed from the states returned by the previous segment,
@@ -87,15 +89,15 @@ RunSegment ==
          /\ \/ /\ chain = <<>>                       \* first segment: from the initial states
                /\ \E b \in 1..(T - 1) :
                     /\ chain' = [p |-> obj[o].params, pos |-> b]
-                    /\ Log([op |-> "run", o |-> o, iv |-> <<"base", T>>, a |-> 0, b |-> b, handover |-> "none",
-                            outs |-> [t \in 1..b |-> OutLabel(obj[o].params, <<"base", T>>, t - 1)],
-                            st |-> StLabel(obj[o].params, <<"base", T>>, b)])
+                    /\ Log([op |-> "run", o |-> o, iv |-> <<"base", T>>, a |-> 0, b |-> b, handover |-> "none", s0 |-> "given",
+                            outs |-> [t \in 1..b |-> OutLabel(obj[o].params, "given", <<"base", T>>, t - 1)],
+                            st |-> StLabel(obj[o].params, "given", <<"base", T>>, b)])
             \/ /\ chain # <<>> /\ chain.p = obj[o].params
                /\ \E b \in (chain.pos + 1)..T, h \in HandOvers :
                     /\ chain' = IF b = T THEN <<>> ELSE [chain EXCEPT !.pos = b]
-                    /\ Log([op |-> "run", o |-> o, iv |-> <<"base", T>>, a |-> chain.pos, b |-> b, handover |-> h,
-                            outs |-> [t \in 1..(b - chain.pos) |-> OutLabel(obj[o].params, <<"base", T>>, chain.pos + t - 1)],
-                            st |-> StLabel(obj[o].params, <<"base", T>>, b)])
+                    /\ Log([op |-> "run", o |-> o, iv |-> <<"base", T>>, a |-> chain.pos, b |-> b, handover |-> h, s0 |-> "given",
+                            outs |-> [t \in 1..(b - chain.pos) |-> OutLabel(obj[o].params, "given", <<"base", T>>, chain.pos + t - 1)],
+                            st |-> StLabel(obj[o].params, "given", <<"base", T>>, b)])
     /\ UNCHANGED <<obj, done>>
 
 \* some other catalogued model is run in between (it must leave no trace: no label mentions it)
@@ -121,10 +123,10 @@ Runs == {k \in 1..Len(hist) : hist[k].op = "run"}
 Causal == \A k \in Runs : \A t \in 1..Len(hist[k].outs) :
              LET iv == hist[k].iv IN
              (iv[1] # "base" /\ hist[k].a + t <= iv[2]) =>
-                 hist[k].outs[t] = OutLabel(hist[k].outs[t][2], <<"base", T>>, hist[k].a + t - 1)
+                 hist[k].outs[t] = OutLabel(hist[k].outs[t][2], hist[k].s0, <<"base", T>>, hist[k].a + t - 1)
 
 \* C14 purity: a label never mentions an object or a position in the history
-PureLabels == \A k \in Runs : \A t \in 1..Len(hist[k].outs) : Len(hist[k].outs[t]) = 3 /\ hist[k].outs[t][1] = "out"
+PureLabels == \A k \in Runs : \A t \in 1..Len(hist[k].outs) : Len(hist[k].outs[t]) = 4 /\ hist[k].outs[t][1] = "out"
 
 \* C06: consecutive segments tile the period: every timestep's output is produced exactly once, in order,
 \* and a completed chain ends with the state label of the uninterrupted run
@@ -136,5 +138,5 @@ Tiling == \A k \in Runs :
              (hist[k].a = 0 /\ hist[k].b < T /\ hist[k].iv = <<"base", T>> /\ chain = <<>> /\ Splits) =>
                  SegmentsFrom(k, 0) = T
 SegmentLabels == \A k \in Runs : \A t \in 1..Len(hist[k].outs) :
-                    hist[k].outs[t][3] = Prefix(hist[k].iv, hist[k].a + t)
+                    hist[k].outs[t][4] = Prefix(hist[k].iv, hist[k].a + t)
 =============================================================================
